@@ -183,6 +183,12 @@ func Ladders(thorough bool, emit func(string)) {
 		emit(fmt.Sprintf("i=0; while i<%d { i=i+1; `{%% if 1 { continue } %%}` }; i", n))
 		emit(fmt.Sprintf("func g(n){ if n <= 0 { return 0 }; g(n-1) }; g(%d)", n))
 		emit(fmt.Sprintf("func g(n){ n <= 0 ? 0 : g(n-1) + 1 }; g(%d)", n*10))
+		// the same sub-container twice per level: the value is a DAG of depth n whose full expansion has 2^n leaves
+		emit(fmt.Sprintf("a=[1]; i=0; while i<%d { a=[a,a]; i=i+1 }; a", n))
+		emit(fmt.Sprintf("v={'k':1}; i=0; while i<%d { v={'x':v,'y':v}; i=i+1 }; v", n))
+		emit(fmt.Sprintf("a=[1]; i=0; while i<%d { a=[a,a]; i=i+1 }; [toStr(a).len(), repr(a).len(), `{a}`.len()]", n))
+		emit(fmt.Sprintf("a=[1]; i=0; while i<%d { a=[a,a]; i=i+1 }; a == a", n))
+		emit(fmt.Sprintf("a=[1]; i=0; while i<%d { a=[a,a]; i=i+1 }; &c = a; c", n))
 		emit(rep("x = ", n) + "1")
 		emit(rep("x.a = ", n) + "1")
 		emit("x={};" + rep("x.a = ", n) + "1")
